@@ -201,3 +201,78 @@ func piecesConst(ps []Piece) (string, bool) {
 	}
 	return sb.String(), true
 }
+
+// HolePos: position of a hole-bearing token in the template's tree. Path is the index
+// path from the root object ("7.4.1": 8th member, its 5th member/element, ...).
+type HolePos struct {
+	Path  string
+	Class string // class of the hole if the token is exactly one hole, "~" if composite
+	IsKey bool
+}
+
+func (t *Template) HolePositions() []HolePos {
+	type lvl struct {
+		obj  bool
+		idx  int
+		path string
+	}
+	var out []HolePos
+	var stack []lvl
+	childPath := func() string {
+		if len(stack) == 0 {
+			return ""
+		}
+		top := stack[len(stack)-1]
+		if top.path == "" {
+			return fmt.Sprint(top.idx)
+		}
+		return top.path + "." + fmt.Sprint(top.idx)
+	}
+	done := func() {
+		if len(stack) > 0 {
+			stack[len(stack)-1].idx++
+		}
+	}
+	classOf := func(ps []Piece) string {
+		holes := 0
+		for _, p := range ps {
+			if p.Hole != "" {
+				holes++
+			}
+		}
+		if holes == 0 {
+			return ""
+		}
+		if len(ps) == 1 {
+			return ps[0].Class
+		}
+		return "~"
+	}
+	for _, tk := range t.Toks {
+		switch tk.Kind {
+		case TkDelim:
+			switch tk.Delim {
+			case '{', '[':
+				stack = append(stack, lvl{obj: tk.Delim == '{', path: childPath()})
+			default:
+				stack = stack[:len(stack)-1]
+				done()
+			}
+		case TkString, TkNumber:
+			if c := classOf(tk.Pieces); c != "" {
+				out = append(out, HolePos{Path: childPath(), Class: c, IsKey: tk.IsKey})
+			}
+			if !tk.IsKey {
+				done()
+			}
+		case TkBool:
+			if tk.Hole != "" {
+				out = append(out, HolePos{Path: childPath(), Class: "B"})
+			}
+			done()
+		default:
+			done()
+		}
+	}
+	return out
+}
